@@ -425,6 +425,21 @@ def c13_require(agg):
     return need
 
 
+# ------------------------------------------------------------------ C14
+
+def c14_plan(tier, seed):
+    q = tier == "quick"
+    out = jobs("os-debug", "c14", 8 if q else 16, None, {"cases": 300 if q else 4000}, timeout=3000)
+    out += jobs("os-release", "c14", 2 if q else 6, None, {"cases": 300 if q else 4000}, timeout=3000)
+    out += jobs("inproc-debug", "c14", 3 if q else 6, None, {"cases": 300 if q else 4000}, timeout=3000)
+    return out
+
+
+def c14_require(agg):
+    st = agg["stats"]
+    return ["fewer than 100 scenarios of kind %d" % k for k in range(6) if st.get("kind_%d" % k, 0) < 100]
+
+
 # ------------------------------------------------------------------ C19
 
 def c19_plan(tier, seed):
@@ -478,6 +493,21 @@ NOTES = ("Runtime monitoring and sanitizers. ./check <id> rebuilds the harness (
 NOT_APPLICABLE = {}
 
 PROPS = {
+    "C14": {
+        "plan": c14_plan,
+        "require": c14_require,
+        "level": "exploration",
+        "level_text": "Exploration: thousands of generated scenarios of six kinds - serialisation failing (serde custom error / bincode's own error) after 0..k of n embedded "
+                      "senders, receivers and regions; transmission rejected by the OS; sends nested to depth 1..3 inside Serialize impls with attachments before, inside "
+                      "and after the nested call, also with the innermost send failing (serialisation error or closed receiver) and the error swallowed or propagated; a "
+                      "receive inside a Deserialize impl - each followed by three ordinary messages with attachments from the same thread. Counterparts of every embedded "
+                      "endpoint must observe disconnection after a failed send, every delivered message must carry exactly its own attachments (identity probes), and the "
+                      "descriptor count must return to the baseline.",
+        "level_note": "A panic inside the library during a scenario is reported as a violation and ends the batch (thread-local state is unknown afterwards).",
+        "technique": "runtime monitoring: failing/nesting Serialize and Deserialize impls with counterpart-disconnection, identity-probe and descriptor-balance oracles",
+        "rule": "case = one scenario; distinct = its parameter tuple (kind, attachment counts, failure position, depth, failure mode, propagation); every case is non-trivial",
+        "assumptions": [],
+    },
     "C13": {
         "plan": c13_plan,
         "require": c13_require,
